@@ -21,6 +21,21 @@ CLAIMED = {
                 "technique family). Trusted: Python semantics of attribute stores; weakref parent sets behave as sets.",
         "technique": "custom AST/CFG must-pass-through and guard-condition rules over the resolved node class hierarchy",
     },
+    "C11": {
+        "category": "other",
+        "text": "Structural clauses of 'sum of its parts / joint fit': without shared errors every member contributes exactly one cost alias and MultiCostFunction.cost_sum "
+                "is the plain sum of its arguments (no determinant of its own; the combined log-determinant is the sum of the members'); with shared errors one loop "
+                "partitions the members by is_chi2 - chi2 members take consecutive data slots and contribute y data / y model / y covariance / x covariance / derivative "
+                "nodes exactly once and no own cost, the others keep cost<i>, the shared cost enters once and the constraint cost of the sharing members is kept; every "
+                "combined parameter node replaces the same-named node in every member graph; concatenation and diagonal blocks use consecutive edges for rows and "
+                "columns; shared sources are accumulated (+=) into both transposed off-diagonal blocks, guarded by enabled and axis, with edges looked up through the "
+                "fit-index -> data-slot map; the joint covariance is y + x o outer(d, d); _update_singular_fits post-dominates result production in do_fit and "
+                "asymmetric_parameter_errors and hands each member the sub-blocks at the positions of its own parameter names; fix / release are mirrored into members.",
+        "note": "Numerical equivalence with a joint fit of the concatenated data is not decided. Several wiring clauses are shape rules over the whitespace-normalised "
+                "statements of MultiFit._init_nexus / _init_shared_error_nodes; the accumulation, symmetry, guard and index-map clauses are structural (they accept the "
+                "refactoring of the block loop into slices).",
+        "technique": "structural AST rules + CFG post-dominance + canonical-form comparison of the covariance formulas",
+    },
     "C12": {
         "text": "Typestate and path rules on kafe2/fit/histogram/container.py, decided on the CFG of each function: every reader of the count array is "
                 "dominated by a flush of pending entries (or adds the pending count itself); underflow/bins/overflow use the filler's index convention; "
